@@ -9,7 +9,7 @@ from .. import fsharness as F
 ID = "C05"
 N_QUICK, N_THOROUGH = 500, 30000
 RULE = ("file contents drawn from each code page's decode image (utf-8, cp1252, cp932, cp949; including byte strings valid under several encodings) and "
-        "undecodable byte strings x {.sm,.ssc} x with/without output and backup names (incl. clashing backup names) x custom try_encodings orders and "
+        "undecodable byte strings x {.sm,.ssc} (input names with further dots too; .sm files that begin with VERSION, .ssc files that do not) x with/without output and backup names (incl. clashing backup names) x custom try_encodings orders and "
         "explicit encoding= x native temp directory and in-memory PyFilesystem x edit scripts in the block; compares detected encoding, loaded simfile, "
         "final directory contents (names and bytes) and the escaping exception; then a no-op mutate on the written file; non-trivial = block exits normally")
 assumptions = ["Python's codecs decide what 'decodes' means; text-mode newline translation is the interpreter's (values contain no bare CR)",
